@@ -442,6 +442,7 @@ class BaseParser:
         dependencies = set()
         unprovided_fields = set()
         provided_fields = set()
+        provided_values = {}
         options = context.options
 
         for key, value in data.items():
@@ -465,10 +466,12 @@ class BaseParser:
                 continue
 
             if not options.ignore_alias_conflicts:
-                if name in result:  # or (excluded_keys and name in excluded_keys):
-                    if result[name] != value:
+                if name in provided_values:  # or (excluded_keys and name in excluded_keys):
+                    # compare the input values themselves (not the parsed value with an input value)
+                    if provided_values[name] != value:
                         context.handle_error(exc.AliasConflictError(item=name, value=value))
                     continue
+                provided_values[name] = value
 
             if excluded_keys and name in excluded_keys:
                 continue
